@@ -11,6 +11,8 @@ Float laws used: FL-cast (guess reader only).  Assumption: map keys are machine 
 import CambrianModel.Lemmas.ConfInv
 import CambrianModel.Lemmas.JsonLemmas
 import CambrianModel.Lemmas.ParseLemmas
+import CambrianModel.Lemmas.MutGenLemmas
+import CambrianModel.Lemmas.CrossGenLemmas
 namespace Cambrian.Props
 open Cambrian Cambrian.Ctl
 
@@ -41,6 +43,17 @@ theorem C01_cross (cp sp : PClass) (s : SNode) (ps : List VNode) (out : VNode) (
 theorem C01_mut (pc : PClass) (s : SNode) (vi vo : VNode) (hs : wf s = true) (hi : conf s vi = true)
     (hk : keysBounded vo = true) (h : mutAcc pc s vi vo = true) : conf s vo = true :=
   mutAcc_conf pc s vi vo hs hi hk h
+
+/-- Closure stated for the ALGORITHMS themselves (the code-shaped models `crossGen` / `mutGen`, every random decision an
+    oracle field): recombination of conforming parents followed by mutation yields a conforming candidate - for every
+    spec, any number of parents, every consistent oracle, every sample the generator could deliver. -/
+theorem C01_offspring_alg (oc : CrossOracle) (om : MutOracle) (cp sp pc : PClass) (hcc : oc.Consistent cp sp)
+    (hmc : om.Consistent pc) (s : SNode) (p : Path) (ps : List VNode) (hs : wf s = true) (hne : ps ≠ [])
+    (hp : ∀ q ∈ ps, conf s q = true)
+    (hk : keysBounded (mutGen om s p (crossGen oc s p ps)) = true) :
+    conf s (mutGen om s p (crossGen oc s p ps)) = true := by
+  have hc := crossAcc_conf cp sp s ps _ hs hne hp (crossGen_crossAcc oc cp sp hcc s p ps hs hne hp)
+  exact mutAcc_conf pc s _ _ hs hc hk (mutGen_mutAcc om pc hmc s p _ hs hc)
 
 /-- Run level: in every generation of every run, whatever the objective values, rejections, failures, completion
     order, sample size and concurrency, each parameter set passed to the objective function conforms to the spec
